@@ -425,7 +425,11 @@ func (e *Exec) CaseCoq(obs []Obs) string {
 		}
 		rt = fmt.Sprintf("(Some (%s, %s, %s))", classCoq(e.RT.Class), sn, cBool(e.RT.SameExport))
 	}
-	return "mkCase " + e.initCoq() + "\n  " + cList(evs) + "\n  " + cList(os) + "\n  " + cList(hd) + "\n  " + rt
+	var iso []string
+	for _, k := range e.IsoDiff {
+		iso = append(iso, fmt.Sprint(k))
+	}
+	return "mkCase " + e.initCoq() + "\n  " + cList(evs) + "\n  " + cList(os) + "\n  " + cList(hd) + "\n  " + rt + "\n  " + cList(iso)
 }
 
 // typed events as (kind, tenant, record id); see Exec/Run.v
